@@ -927,6 +927,9 @@ func qndleqCase(t *rapid.T) {
 			// only a change of the challenge's byte length is an alteration of the proof's
 			// meaning: ceil(SecParam/8) is all the verifier uses
 			nsp := uint(rapid.SampledFrom([]int{0, 8, 64, 120, 136, 256, 1024}).Draw(t, lbl+".nsp"))
+			if rapid.Bool().Draw(t, lbl+".extreme") {
+				nsp = rapid.SampledFrom(extremeSecParams()).Draw(t, lbl+".xsp")
+			}
 			p2.SecParam = nsp
 			ident = (nsp+7)/8 == (sp+7)/8
 			what = fmt.Sprintf("SecParam %d", nsp)
@@ -1039,6 +1042,21 @@ func qndleqCase(t *rapid.T) {
 		cand{"prover-chosen-secparam:Z=0,C=0,SecParam=0", &qndleq.Proof{Z: bi(0), C: bi(0), SecParam: 0}},
 		cand{"prover-chosen-secparam:Z=random,C=0,SecParam=0", &qndleq.Proof{Z: rz, C: bi(0), SecParam: 0}},
 	)
+	// extreme values of SecParam (every one ≥ the verifier's 128, so a hit is NOT the known
+	// prover-chosen-secparam finding)
+	for xi, spv := range extremeSecParams() {
+		if spv < verifierSecParam {
+			continue
+		}
+		// every value in the thorough tier, a drawn third of them per case in the quick tier
+		if !vlib.Thorough() && rapid.IntRange(0, 2).Draw(t, fmt.Sprintf("xsp%d", xi)) != 0 {
+			continue
+		}
+		cands = append(cands,
+			cand{"extreme-secparam:Z=7,C=0", &qndleq.Proof{Z: bi(7), C: bi(0), SecParam: spv}},
+			cand{"extreme-secparam:Z=random,C=random", &qndleq.Proof{Z: rz, C: rc, SecParam: spv}},
+		)
+	}
 	if rapid.IntRange(0, 3).Draw(t, "grind") == 0 {
 		spv := uint(rapid.SampledFrom([]int{1, 8}).Draw(t, "grindSP"))
 		for z := int64(0); z < 1200; z++ {
@@ -1079,6 +1097,20 @@ func qndleqCase(t *rapid.T) {
 		vlib.NonTrivial(fsub, "", []byte(cdesc))
 		vlib.Sample(fsub, cls, cdesc+" → false")
 	}
+}
+
+// extremeSecParams are boundary values of the one machine-integer field the verifier reads:
+// the top of the uint range (where SecParam+7 wraps), the neighbourhood of the package's upper
+// bound 1<<12, and powers of two ± 1. Values whose challenge would be 2^29..2^48 bytes long are
+// left out on purpose: on a tree without any upper bound the verifier would really try to
+// allocate that much, which would take the machine down rather than fail a test.
+func extremeSecParams() []uint {
+	m := ^uint(0)
+	out := []uint{m, m - 1, m - 2, m - 3, m - 4, m - 5, m - 6, m - 7, m - 8, m - 15, m - 16, m/2 + 1, m / 2, m/2 + 2}
+	for _, k := range []uint{7, 8, 10, 12, 13, 16, 20, 52, 60, 62} {
+		out = append(out, 1<<k-1, 1<<k, 1<<k+1)
+	}
+	return out
 }
 
 // qnChallengeReplica is a black-box replica of zk/qndleq's challenge (no specification exists;
@@ -1205,6 +1237,11 @@ func qnNonUnitStatements(t *rapid.T, P, Q safePrime, N, g, gx, h, hx *big.Int, p
 					cands = append(cands, cand{"recomputed-C:commitments=1,1", &qndleq.Proof{Z: z, C: c, SecParam: spv}})
 				}
 			}
+		}
+	}
+	for xi, spv := range extremeSecParams() {
+		if spv >= verifierSecParam && (vlib.Thorough() || rapid.IntRange(0, 2).Draw(t, fmt.Sprintf("nuxsp%d", xi)) == 0) {
+			cands = append(cands, cand{"extreme-secparam:Z=random,C=0", &qndleq.Proof{Z: rz, C: bi(0), SecParam: spv}})
 		}
 	}
 	for _, c := range cands {
